@@ -52,6 +52,8 @@ type Loader struct {
 	globs  []globSpec
 	repoDir string
 	curTop *ssa.Function
+	immGlobals map[string]bool
+	allFuncs map[*ssa.Function]bool
 }
 
 type globSpec struct {
@@ -80,7 +82,9 @@ func load(repoDir string, patterns []string) (*Loader, error) {
 		specs: newSpecs(), typeTags: map[string]int{}, strNames: map[string]string{}, inlineLimit: 120,
 		anchors: map[*ssa.Function]map[token.Pos]string{}, repoDir: repoDir}
 	packages.Visit(pkgs, nil, func(p *packages.Package) { L.byPath[p.PkgPath] = p })
-	for fn := range ssautil.AllFunctions(prog) {
+	L.immGlobals = map[string]bool{}
+	L.allFuncs = ssautil.AllFunctions(prog)
+	for fn := range L.allFuncs {
 		if fn.Pkg == nil && fn.Parent() == nil {
 			continue
 		}
@@ -103,21 +107,16 @@ func (L *Loader) loadSpecs(assumedDir string) error {
 		return err
 	}
 	for k, sp := range L.specs.Funcs {
-		if strings.ContainsAny(k, "*?") && sp.Assumed && !strings.Contains(k, "(*") {
-			L.addGlob(k, sp)
-		} else if sp.Assumed && strings.HasSuffix(k, ".*") {
+		if sp.Assumed && strings.HasSuffix(k, ".*") {
 			L.addGlob(k, sp)
 		}
 	}
+	sort.Slice(L.globs, func(i, j int) bool { return len(L.globs[i].re.String()) > len(L.globs[j].re.String()) })
 	return nil
 }
 
 func (L *Loader) addGlob(k string, sp *FuncSpec) {
-	q := regexp.QuoteMeta(k)
-	q = strings.ReplaceAll(q, `\.\*`, `\..*`)
-	if strings.HasSuffix(k, ".*") {
-		q = regexp.QuoteMeta(k[:len(k)-1]) + ".*"
-	}
+	q := regexp.QuoteMeta(k[:len(k)-1]) + ".*"
 	L.globs = append(L.globs, globSpec{regexp.MustCompile("^" + q + "$"), sp})
 }
 
@@ -225,6 +224,63 @@ func (L *Loader) isNullableAddr(a *Addr) bool {
 	}
 	// Key is "F:<typekey>.<field>"
 	return L.specs.Nullable[strings.TrimPrefix(a.Key, "F:")]
+}
+
+// immutableGlobalKey: heap key "G:<pkgpath>.<name>#k" of a package-level variable that no
+// function other than the package initialiser stores to and whose address never escapes.
+func (L *Loader) immutableGlobalKey(key string) bool {
+	name := strings.TrimPrefix(key, "G:")
+	if i := strings.LastIndex(name, "#"); i >= 0 {
+		name = name[:i]
+	}
+	if v, ok := L.immGlobals[name]; ok {
+		return v
+	}
+	i := strings.LastIndex(name, ".")
+	pkgPath, gname := name[:i], name[i+1:]
+	res := false
+	if pk, ok := L.byPath[pkgPath]; ok {
+		if sp := L.prog.Package(pk.Types); sp != nil {
+			if g, ok := sp.Members[gname].(*ssa.Global); ok {
+				res = L.globalIsImmutable(g)
+			}
+		}
+	}
+	L.immGlobals[name] = res
+	return res
+}
+
+func (L *Loader) globalIsImmutable(g *ssa.Global) bool {
+	refs := 0
+	for fn := range L.allFuncs {
+		if pkgOf(fn) == nil {
+			continue
+		}
+		for _, b := range fn.Blocks {
+			for _, in := range b.Instrs {
+				ops := in.Operands(nil)
+				for _, op := range ops {
+					if *op != ssa.Value(g) {
+						continue
+					}
+					refs++
+					switch x := in.(type) {
+					case *ssa.UnOp:
+						// load: fine
+						_ = x
+					case *ssa.Store:
+						if x.Addr == ssa.Value(g) && fn.Name() == "init" && pkgOf(fn) == g.Pkg {
+							continue
+						}
+						return false
+					default:
+						return false // address escapes
+					}
+				}
+			}
+		}
+	}
+	return true
 }
 
 func (L *Loader) pkgByPath(p string) *types.Package {
